@@ -14,7 +14,8 @@ META = {
             "for EVERY content shape over the name universe and over bounded transaction histories. TLC then enumerates zone "
             "histories from Gen_BTreeZone (initial load in every record order, all sequences of put/delete-rdataset/"
             "delete-node operations split into transactions in every way, seeded long simulations with add/delete-rdata, "
-            "rollbacks and reloads); each is replayed on dns.btreezone.Zone (relativized and absolute, both name spellings) "
+            "rollbacks and reloads); each is replayed on dns.btreezone.Zone (relativized and absolute, both name spellings; "
+            "zone created with its origin, or without one and loaded by dns.zone.from_text from text with $ORIGIN) "
             "and after every commit Trace_BTreeZone recomputes flags, index, order and every bounds() field from the logged "
             "content and compares them with what the implementation maintained incrementally.",
     "note": "Exhaustive only inside the constants of the MC/Gen configurations (8-10 owner names incl. a chain of up to four "
@@ -95,6 +96,7 @@ def _at_or_below(i, j):
 
 APEX = 1  # the table is sorted canonically: the apex (no labels) is first
 
+SIG_F34 = "F34:apex-flagged-delegation-when-origin-learned-in-first-transaction"
 SIG_A = "F12a:non-NS-write-at-delegation-drops-flag"
 SIG_A2 = "F12a:delete-node-after-dropped-flag-leaves-stale-delegation"
 SIG_B_KEPT = "F12b:nested-cuts:inner-cut-kept-in-index"
@@ -147,6 +149,11 @@ def explain(tr, items):
         cache[line] = (ever_ns, dropped, deleted, outer, nested_seen)
         return cache[line]
 
+    # F34: zone created without an origin (not relativized), origin learned in the first transaction,
+    # and the apex came out of that load without the ORIGIN flag
+    first = ev[0] if ev else {}
+    no_origin_flag = (tr.get("mk") == "learn" and not rel and first.get("op") == "load" and "obs" in first
+                      and not dict((f[0], f[1]) for f in first["obs"]["flags"]).get(APEX, 0) & 1)
     # delegation-index entries that are stale because the node was deleted after its flag was dropped
     stale = {}
     missing = {}
@@ -164,7 +171,11 @@ def explain(tr, items):
         names = [x for x in it[2:] if isinstance(x, int)] if kind in ("left", "right", "encloser") else [it[2]]
         names = [x for x in names if x and x > 0]
         why = None
-        if kind == "encloser" and rel and it[4] == it[2] and it[3] == APEX and it[2] != APEX:
+        if no_origin_flag and not any(ev[k]["op"] == "load" for k in range(1, line)):
+            # everything derived from "is this the origin?" went wrong in the first transaction
+            # (and stays wrong until the zone is reloaded)
+            why = SIG_F34
+        elif kind == "encloser" and rel and it[4] == it[2] and it[3] == APEX and it[2] != APEX:
             why = SIG_D
         elif (kind == "left" and it[4] > 0 and oflags.get(it[4], 0) & 4 and it[3] in odel and _below(it[4], it[3])
               and not _at_or_below(it[2], it[3])):
@@ -189,13 +200,13 @@ KIND_CLAUSE = {"nodes": "Order", "order": "Order", "flag": "Flags", "deleg-missi
                "deleg-extra": "DelegationIndex", "deleg-order": "DelegationIndex", "bounds-exc": "BoundsNoException",
                "left": "BoundsLeft", "right": "BoundsRight", "encloser": "BoundsClosestEncloser",
                "is_equal": "BoundsIsEqual", "is_delegation": "BoundsIsDelegation"}
-PRIORITY = [SIG_A, SIG_A2, SIG_B_KEPT, SIG_B_PROMO, SIG_B_LOOKUP, SIG_C, SIG_D]
+PRIORITY = [SIG_F34, SIG_A, SIG_A2, SIG_B_KEPT, SIG_B_PROMO, SIG_B_LOOKUP, SIG_C, SIG_D]
 
 
 def classify(tr, line, clause):
     """(clause id, case signature, description) of a rejected trace.  A known-defect signature is given
     only if EVERY mismatch of the trace shows the exact pattern of a known defect."""
-    cfgs = "%s:%s" % ("rel" if tr.get("rel") else "abs", tr.get("sp"))
+    cfgs = "%s:%s%s" % ("rel" if tr.get("rel") else "abs", tr.get("sp"), ":learn" if tr.get("mk") == "learn" else "")
     if not isinstance(clause, list):
         e = tr["ev"][line - 1] if line and 0 < line <= len(tr["ev"]) else {}
         return str(clause), "%s:%s:%s:%s" % (clause, e.get("op", "?"), cfgs, e.get("exc", "")), json.dumps(e)[:300]
@@ -233,7 +244,7 @@ def run(ctx):
         case = ctx.replay_case["case"]
         r, _ = generate(ctx, "tab.cfg", fixed="FixedOne")
         D.setup(r.prints["TAB"][0], {"U": r.prints["QRYU"][0], "W": r.prints["QRYW"][0]})
-        traces = [D.replay(case["hist"], case["qset"], case["rel"], case["sp"], "replay")]
+        traces = [D.replay(case["hist"], case["qset"], case["rel"], case["sp"], "replay", case.get("mk", "origin"))]
         jobs = []
     else:
         # ---- the definitions: laws for every content shape, and over bounded histories
@@ -278,7 +289,12 @@ def run(ctx):
                 # the other spelling of every name (absolute names to a relativized zone and vice versa):
                 # every 5th history, alternating
                 sp = "oth" if (i % 5 == 0 and (i // 5) % 2 == (1 if rel else 0)) else "nat"
-                jobs.append((h, qset, rel, sp, "%s.%d.%s" % (tag, i, "rel" if rel else "abs")))
+                jobs.append((h, qset, rel, sp, "%s.%d.%s" % (tag, i, "rel" if rel else "abs"), "origin"))
+                # the same history on a zone created WITHOUT an origin: dns.zone.from_text learns it from
+                # $ORIGIN in the first transaction.  Every load order (G1), a share of the rest.
+                if tag.startswith("g1") or i % (8 if tag.startswith("g2") else 3) == 0:
+                    jobs.append((h, qset, rel, "oth" if i % 2 else "nat",
+                                 "%s.%d.%s.learn" % (tag, i, "rel" if rel else "abs"), "learn"))
         ctx.extra["histories"] = len(hists)
         traces = ctx.pmap(D.run_job, jobs)
         ctx.distinct = set(j[4] for j in jobs)
@@ -294,7 +310,7 @@ def run(ctx):
     for tr, line, clause in rejects:
         cl, sig, what = classify(tr, line, clause)
         ctx.violation(cl, sig, "relativize=%s spelling=%s %s" % (tr.get("rel"), tr.get("sp"), what),
-                      {"hist": strip(tr), "qset": tr.get("qset"), "rel": tr.get("rel"), "sp": tr.get("sp"), "line": line,
+                      {"hist": strip(tr), "qset": tr.get("qset"), "rel": tr.get("rel"), "sp": tr.get("sp"), "mk": tr.get("mk", "origin"), "line": line,
                        "mismatches": clause if isinstance(clause, list) else [clause],
                        "names": {str(i + 1): ".".join(lb.decode("latin1") for lb in n) or "@" for i, n in enumerate(D.TABLE.labels)},
                        "trace": tr})
